@@ -13,7 +13,7 @@ RULE = ("choose: instance-type tables of 0-12 types (prices in 1/64 units drawn 
         "PDH strings and mount lists incl. int64 wrap-around. rq: queue snapshots of 0-8 containers "
         "(Queued/Locked/Running, priorities 0-6 with ties, running / lingering-process flags) x pool states "
         "(quota reached after 0,1,2,never creates; Create succeeding 0,1,2,always times; per type idle 0-2, "
-        "booting 0-2, StartContainer by idle count / always failing / always succeeding). "
+        "booting 0-2, StartContainer by idle count / always failing / always succeeding / failing once then succeeding). "
         "non-trivial: choose with >= 2 types, rq with >= 2 containers that are not skipped; distinct = distinct case line")
 ASSUMPTIONS = [
     "prices are finite float64 values that are multiples of 1/64 (compared exactly); NaN prices are excluded",
@@ -277,7 +277,7 @@ def _gen_rq(rng, maxn):
     rng.shuffle(ents)
     quota = rng.choice([0, 0, 1, 2, 99, 99, 99])
     cancreate = rng.choice([0, 1, 2, 99, 99, 99])
-    types = ",".join(f"{rng.choice([0, 0, 1, 1, 2])}:{rng.choice([0, 0, 1, 2])}:{rng.choice('iiiiiifs')}" for _ in range(nt))
+    types = ",".join(f"{rng.choice([0, 0, 1, 1, 2])}:{rng.choice([0, 0, 1, 2])}:{rng.choice('iiiiiifsx')}" for _ in range(nt))
     es = ",".join(f"{u}:{p}:{st}:{ty}:{fl}" for u, p, st, ty, fl in ents) or "-"
     return f"rq {quota}:{cancreate} {types} {es}"
 
